@@ -358,6 +358,7 @@ def first_tree_difference(a, b):
 def run(ctx):
     import rules.C06 as c06
     c06.r06_1(ctx, rule='R13.1')
+    c06.hash_combiners(ctx, 'R13.1')
     r13_2(ctx)
     r13_3(ctx)
     r13_4(ctx)
